@@ -116,7 +116,7 @@ def _rf_v2(prop, case, f):
     # the compact mask) or several pages the selection is misapplied or raises IndexError/ValueError
     if prop != "C13" or f.get("dpv") != 2:
         return False
-    if f.get("kind") == "mask_read_raised" and f.get("where") == "core.py:read_data_page_v2":
+    if f.get("kind") in ("mask_read_raised", "filtered_read_raised") and f.get("where") == "core.py:read_data_page_v2":
         return True
     return f.get("kind") in _ALIGN or (f.get("kind") in _ROWSET and bool(f.get("read_columns_multi_page")))
 
